@@ -37,8 +37,8 @@ META = {
                   "(1.4e-8), 1e-5 for discontinuous (pwc/rect) coefficients.",
     "shards": {"quick": 3, "thorough": 16},
     "budget_s": {"quick": 55, "thorough": 420},
-    "min_evals": {"quick": 60, "thorough": 2500},
-    "min_nontrivial": {"quick": 25, "thorough": 900},
+    "min_evals": {"quick": 60, "thorough": 800},
+    "min_nontrivial": {"quick": 25, "thorough": 300},
     "deciding": ["evolve.ode", "evolve.expm", "pulse.convenience", "pulse.hardware"],
     "allow_rejections": True,
     "rule": "case = (Hamiltonian description, parameters, time window, options); distinct = distinct content; non-trivial = the propagator "
@@ -335,6 +335,12 @@ def run(ctx):
                 # evolution (short window: the transmon frequencies are large)
                 if ctx.more() and (ci // 8) % 3 == 0 and rep == 0:
                     T = 0.3 if hw == "transmon" else 0.5
+                    # Rydberg atoms drawn close together give 2*pi*C6/R^6 ~ 1e8: neither the reference integrator (DOP853, rtol 1e-12)
+                    # nor odeint can resolve ~1e8 radians of phase in bounded time, so the oracle cannot decide such a case; the
+                    # Hamiltonian matrix itself was compared above.  Counted, never folded into held/violated.
+                    if float(np.linalg.norm(Href(0.5 * T), 2)) * T > 400.0:
+                        ctx.count("evolve_skipped_stiff_reference")
+                        continue
                     U = guarded("pulse.hardware", hw + ":evolve", lambda: np.asarray(qp.matrix(qp.evolve(H)(params, t=[0.0, T], atol=1e-11, rtol=1e-11), wire_order=wires)), desc)
                     if U is not None:
                         Uref = ref_propagator(Href, 0.0, T, 2 ** n)
